@@ -33,7 +33,19 @@ pub struct Args<'a> {
 }
 impl<'a> Args<'a> {
     pub fn next(&mut self) -> u64 {
-        let x = self.v.get(self.i).copied().unwrap_or(0);
+        // past the explicit arguments of the command: a deterministic pseudo-random
+        // continuation derived from them (so long probes do not degenerate to zeros)
+        let x = match self.v.get(self.i) {
+            Some(x) => *x,
+            None => {
+                let mut h: u64 = 0x9E3779B97F4A7C15 ^ (self.i as u64).wrapping_mul(0xD1B54A32D192ED03);
+                for y in self.v.iter() {
+                    h = (h ^ *y).wrapping_mul(0xFF51AFD7ED558CCD);
+                    h ^= h >> 33;
+                }
+                h >> 11
+            }
+        };
         self.i += 1;
         x
     }
